@@ -4,7 +4,7 @@ import json
 from . import gen, render, termgen
 
 POOL = ['A', 'B', 'C']
-SUPPORTED = {'var', 'const', 'un', 'in', 'fn', 'bin', 'agg', 'clause', 'set', 'join', 'an', 'hier'}
+SUPPORTED = {'var', 'const', 'un', 'in', 'fn', 'bin', 'agg', 'clause', 'set', 'join', 'an', 'hier', 'dpcheck', 'check'}
 
 
 def enum_rule(rnd):
@@ -63,8 +63,6 @@ def supported(t):
         return False
     if ('clause', 'sub') in ks:
         return False
-    if t.get('k') == 'hier' and t.get('check'):
-        return False          # check_hierarchy / validations with viral attributes are not modelled
     if t.get('k') == 'join' and (t.get('using') or t.get('how') not in ('inner', 'left')):
         return False
     if t.get('k') == 'join':
@@ -158,7 +156,7 @@ def random_viral_units(rnd, n):
     from props import c05
     base = (termgen.random_units(rnd, n) + termgen.random_chain_units(rnd, n // 2) + termgen.random_agg_units(rnd, n // 2, maxrows=12)
             + c05.random_units(rnd, n // 3) + termgen.random_join_units(rnd, n // 2) + nested_units(rnd, 2 * n) + termgen.random_analytic_units(rnd, n // 2)
-            + [u for u in termgen.random_validation_units(rnd, 2 * n) if u['term']['k'] == 'hier' and not u['term']['check']][:n // 4])
+            + termgen.random_validation_units(rnd, n // 2))
     rnd.shuffle(base)
     out = []
     for u in base:
